@@ -35,6 +35,10 @@ def run(tier):
               'into gin through real config text and gin.constant; non-trivial = a call using %name, a %name parse, '
               'a constant definition, a finalize')
   cc.model_check(rep, 'MC_Macros_quick', timeout=1200)
+  # finalize against every way of defining / referring to macros (explicit references, scope-like names), under two
+  # concretisations (reference spellings)
+  cc.replay_scenarios(rep, 'GinCore_Scen_macrofin', max_files=400 if tier == 'quick' else 3000, nontrivial=_nontrivial,
+                      depth=5 if tier == 'quick' else 6, timeout=200, salts=(0, 1))
   cc.replay_scenarios(rep, 'GinCore_Scen_const', max_files=600 if tier == 'quick' else 4000, nontrivial=_nontrivial,
                       depth=5 if tier == 'quick' else 7, timeout=150 if tier == 'quick' else 900)
   n = 300 if tier == 'quick' else 4000
